@@ -89,6 +89,19 @@ func SelfTest(w *World, verifDir, tier string, seed uint64) int {
 			}
 		}
 	}
+	// two-process scenarios with their gate resolved (the check does that while judging): the interleaving of
+	// the two processes is the simulator's decision and must replay like everything else
+	np := 20
+	if tier == "thorough" {
+		np = 200
+	}
+	for i := 0; i < np; i++ {
+		sc := genPeerScenario(NewRand(Mix(seed, "selftest-peers", uint64(i))))
+		alone := w.Run(&Scenario{Kind: "proc", Argv: sc.Argv, Files: sc.Files, TmpOther: sc.TmpOther}, RunOpts{Slot: 1999})
+		run := resolveGate(sc, alone)
+		run.Prop = "C18"
+		items = append(items, item{"C18", run})
+	}
 	fmt.Printf("selftest: %d scenarios x 3 executions x 2 worker counts\n", len(items))
 	type obs struct{ trace, out string }
 	observe := func(slot int, sc *Scenario, gmp int) obs {
@@ -109,7 +122,7 @@ func SelfTest(w *World, verifDir, tier string, seed uint64) int {
 		for _, e := range o.Events {
 			fmt.Fprintf(&tb, "%d %d %s %s %d %s %s;", e.Seq, e.Yields, e.Kind, maskSite(e.Site), e.Occ, e.Decision, maskSite(e.Info))
 		}
-		return obs{trace: tb.String(), out: fmt.Sprintf("%d|%d|%s|%s|%s", o.Exit, o.Signal, o.Stdout, maskStderr(o.Stderr), filesDigest(o.Files))}
+		return obs{trace: tb.String(), out: fmt.Sprintf("%d|%d|%s|%s|%s|%s|%d|%s", o.Exit, o.Signal, o.Stdout, stderrKey(o), filesDigest(o.Files), o.PeerRan, o.PeerExit, o.PeerStdout)}
 	}
 	bad := 0
 	var mu sync.Mutex
